@@ -311,6 +311,23 @@ def gen_reverse(rnd, n=None, p_err=0.2):
     return P
 
 
+def wide_shapes():
+    """Shapes that are too wide for the exhaustive budgets of every check (18 M states without any budget) - run on the real engine
+    under every policy, model-checked in the thorough tier of C04 only: two parallel tasks that each feed the same TWO joins (one
+    completion affects two existing joins at once), with and without a third join behind them."""
+    out = []
+    P = Program()
+    P.order = ['a', 'b', 'j1', 'j2']
+    P.tasks = {'a': {'succ': [{'to': 'j1'}, {'to': 'j2'}]}, 'b': {'succ': [{'to': 'j1'}, {'to': 'j2'}]}, 'j1': {'join': -1}, 'j2': {'join': -1}}
+    out.append(('two_joins', P))
+    P = Program()
+    P.order = ['a', 'b', 'j1', 'j2', 'j3']
+    P.tasks = {'a': {'succ': [{'to': 'j1'}, {'to': 'j2'}]}, 'b': {'succ': [{'to': 'j1'}, {'to': 'j2'}]}, 'j1': {'join': -1, 'succ': [{'to': 'j3'}]},
+               'j2': {'join': -1, 'succ': [{'to': 'j3'}]}, 'j3': {'join': -1}}
+    out.append(('two_joins_then_one', P))
+    return out
+
+
 def reverse_catalogue():
     """Small reverse workflows: a chain, a diamond of requirements, a failing dependency, a task outside the target's closure."""
     out = []
